@@ -80,6 +80,10 @@ def on_death(ctx, case, e):
 
 
 def report_panic(ctx, phase, what, panic, detail, case):
+    if panic.get("msg", "").startswith("capacity overflow") or "memory allocation" in panic.get("msg", ""):
+        # an allocation request beyond isize::MAX: memory exhaustion, out of scope by the property's text
+        ctx.skip("resource_exhaustion:capacity_overflow")
+        return
     sig = "panic:%s:%s@%s" % (phase, what, short_loc(panic["loc"]))
     detail = dict(detail)
     detail["panic"] = panic
